@@ -16,7 +16,10 @@ fn dispatch(w: &[&str]) -> String {
         Some("varint") | Some("sid") => e_c16::handle(w),
         Some("dgram") => e_c18::handle(w),
         Some("frame") | Some("fs") => e_c02::handle(w),
-        Some("conn") => scen::handle(w),
+        // connection-level engines share one scenario interpreter; the engine name selects the
+        // Lean model/spec and the Python projection, not the Rust behaviour
+        Some("conn") | Some("goaway") | Some("drain") | Some("req") | Some("ctl") | Some("out") | Some("iso")
+        | Some("e2e") | Some("adv") | Some("wt") | Some("lim") => scen::handle(w),
         _ => "bad-op".into(),
     }
 }
